@@ -329,6 +329,32 @@ Definition pt_of_step (st : pstep) : Z :=
 Definition levels (addr : list Z) (p : list pstep) : list (nat * Z) :=
   rev (combine (map Z.to_nat addr) (map pt_of_step p)).
 
+(* the declared type a path addresses, whatever the key kinds (the code does not check them) *)
+Fixpoint path_type_lax (S : schema) (lbl : flabel) (t : ftype) (p : list pstep) {struct p} : option (flabel * ftype) :=
+  match p with
+  | [] => Some (lbl, t)
+  | st :: rest =>
+    match lbl with
+    | LSingular =>
+      match t with
+      | TMsg name =>
+        match find_msg S name with
+        | Some md => match resolve_field md st with
+                     | Some fd => path_type_lax S (fd_label fd) (fd_type fd) rest
+                     | None => None
+                     end
+        | None => None
+        end
+      | TScalar _ => None
+      end
+    | LRepeated _ => match st with PIndex _ => path_type_lax S LSingular t rest | _ => None end
+    | LMap kk => match st with
+                 | PStrKey _ | PIntKey _ => path_type_lax S LSingular t rest
+                 | _ => None
+                 end
+    end
+  end.
+
 (* ---------------------------------------------------------------- results *)
 Inductive cres := CRes (err : Z) (ex : bool) (bytes : list Z) | CPanic | CUnmodelled.
 
@@ -369,7 +395,7 @@ Definition set_not_found (parent : Z) (st : pstep) (nt : Z) (src : list Z) (desc
 
 (* SetByPath(sub, path...) on the root value; the sub node has the type of the addressed element *)
 Definition coded_set (S : schema) (root : list Z) (buf : list Z) (p : list pstep) (sub : list Z) : cres :=
-  match path_type S LSingular (TMsg root) p, last_step p with
+  match path_type_lax S LSingular (TMsg root) p, last_step p with
   | Some (LSingular, t), Some lst =>
     let nt := td_type (td_base t) in
     let finish (s e : Z) (x : list Z) (addr : list Z) (ex : bool) :=
